@@ -142,13 +142,19 @@ PROPS = {
                 "non-alphanumeric byte percent-encoded) or left raw/malformed ('==', missing '=', trailing '%4', '#frag', '&&'), "
                 "as query string (ProcessURI), urlencoded body (WriteRequestBody+ProcessRequestBody) and Cookie header; header "
                 "store/lookup under other spellings. Compared: ARGS_GET/ARGS/ARGS_GET_NAMES/QUERY_STRING/URLENCODED_ERROR, "
-                "ARGS_POST/REQUEST_BODY, REQUEST_COOKIES, REQUEST_HEADERS dumps (sorted). Non-trivial = at least one pair exposed.",
+                "ARGS_POST/REQUEST_BODY, REQUEST_COOKIES, REQUEST_HEADERS dumps (sorted). JSON documents (trees of depth <= 3, depth limits 1/2/3/1024), "
+                "multipart bodies (0-4 parts, files, malformed variants) and XML documents (elements with 0-3 attributes, character data, CDATA, "
+                "comments, processing instructions; values with markup characters written as entity / decimal / hexadecimal references, "
+                "single- or double-quoted attributes, self-closing tags; 12% malformed: cut short, stray close tag, unknown entity, illegal "
+                "character, two roots) rendered from a tree by the harness's own encoder; compared: ARGS_POST, FILES*, XML://@* and XML:/* "
+                "in document order, REQBODY_ERROR. Non-trivial = at least one pair exposed.",
         "modelled": "modelled and proved: url.ParseQuery/queryUnescape/hexDigitToByte, the fragment cut of ProcessURI, "
                     "cookies.ParseCookies, header storage (collection model). Parameters: net/url.ParseRequestURI (rejects control "
-                    "bytes: modelled as that guard), mime/multipart, encoding/xml, gjson (multipart/JSON/XML bodies are not in this "
-                    "engine yet).",
+                    "bytes: modelled as that guard); JSON, multipart and XML bodies: the flattening of the document tree into the "
+                    "collections (Model/Json.lean, Multipart.lean, Xml.lean) — mime/multipart, encoding/xml and gjson reading well-formed "
+                    "text are the assumed contract.",
         "assumptions": ["url.ParseRequestURI returns RawQuery = everything after the first '?' and fails only on control bytes for these inputs"],
-        "open_statements": ["multipart and XML bodies are not modelled yet; JSON: invalid documents (what gjson makes of them) are outside the model",
+        "open_statements": ["invalid JSON documents (what gjson makes of them), malformed multipart and XML text are outside the models (monitor only)",
                             "arguments beyond SecArgumentsLimit are dropped with only a debug log (F-C03-1, design decision: see known_findings.json)"],
     },
     "C18": {
